@@ -11,17 +11,89 @@ _TB = ('Trusted: the reference model/oracle in vf/props (written from the '
        'single thread), coverage.py for reach evidence. Holds only for the '
        'executions generated; bounds are in the evidence file.')
 
+def _e(text, technique, note=None):
+    return {'text': text, 'technique': technique, 'note': note or _TB}
+
+
 READY = {
-    'C20': {
-        'text': ('Monitors every listener notification and reads all '
-                 'properties of all transforms back after every assignment; '
-                 'oracle = exactly-once per matching listener, value == '
-                 'read-back, exact modulo-360 reduction. Exploration over '
-                 'thousands of random assignment sequences.'),
-        'note': _TB,
-        'technique': 'runtime monitor: listener log + read-back oracle after '
-                     'every assignment',
-    },
+    'C01': _e('Full query sweep of the World after EVERY operation of random '
+              'histories, compared with a dict-based reference model (multiset '
+              'equality for get/get_components, exact-type priority, '
+              'entities/entity_exists, automatic-id freshness). Exploration: '
+              'thousands of histories, ~10^6 query comparisons per quick run.',
+              'history + executable reference model, query sweep at every '
+              'quiescent point'),
+    'C02': _e('Every lifecycle callback is logged with instance, entity, world '
+              'and the dispatch flag at call time; after every operation the '
+              "operation's log slice must equal the model's attach/detach "
+              'transitions (or re-appear, grouped in operation order, at the '
+              'enabling assignment); is_handler == attached for every instance '
+              'ever created; probe events reach exactly the attached '
+              'listeners.',
+              'callback log (uniquely labelled instances) checked online '
+              'against a reference model; exactly-once / ordering oracle'),
+    'C03': _e('Every generated handler method logs (defining class, receiver, '
+              'argument identities, dispatch-call id); per dispatch call '
+              '(nested ones too) the receivers must be exactly the handlers '
+              'registered when it was made, once each, through the function '
+              'the harness-derived mapping names; __events__ of bases '
+              'snapshotted and re-compared.',
+              'delivery log with unique argument tokens + registry model; '
+              'exactly-once oracle per dispatch call'),
+    'C04': _e('Fault enumeration: for every small base script every callback '
+              'position of the release x 7 fault kinds (raise incl. Quit/'
+              'SwitchWorld, nested disable, re-entrant dispatch, handler '
+              'add/remove), then further cycles; trace oracle for exactly-'
+              'once, order, nothing left pending; termination decided as '
+              'bounded progress by a sys.monitoring step budget.',
+              'fault injection at every delivery position + offline trace '
+              'checker + logical step budget (sys.monitoring)'),
+    'C05': _e('Histories dense in delete_entity followed by every other '
+              'operation on the same id; one log interleaves lifecycle '
+              'callbacks and processor calls; query sweep after every '
+              'operation; injected processor fault and never-existed-id '
+              'sub-workload for the recovery clause.',
+              'history + reference model, ordering oracle over one '
+              'interleaved callback/processor log, fault injection'),
+    'C06': _e('All class DAGs with <=4 classes (exhaustive over ordered base '
+              'tuples) plus random DAGs up to 9 classes, as components and as '
+              'processors; every query method issued for every class of the '
+              'DAG and compared with the issubclass-defined expectation '
+              '(multiplicity, exact-type priority, exactly-one removal on '
+              'rebuilt copies).',
+              'differential oracle (issubclass) over enumerated/random class '
+              'DAGs; before/after state comparison for removals'),
+    'C07': _e('Per-frame log of (processor, dt); processors/get_processor/'
+              'p.world/lifecycle log read after every operation; oracle = '
+              'stable sort on (priority, insertion sequence) kept by the '
+              'harness, one processor per exact type, explicit priority '
+              'overrides class default.',
+              'call log + reference list model checked after every operation'),
+    'C08': _e('Every coroutine step logs (frame, coroutine, step); oracle is a '
+              'per-coroutine elapsed-time counter in exact Fractions (no '
+              'shared timer): wake-up frame exact, one step per runnable '
+              'coroutine per frame, stable relative order.',
+              'step log + per-coroutine exact clock model (schedule oracle)'),
+    'C09': _e('Lifecycle automaton per generator; calls from outside are '
+              'predicted, frames are decided by a trace checker replaying the '
+              'observed step/act log (operations issued from inside bodies); '
+              'state and promise read after every call; release sub-workload '
+              'with weak references + gc.collect().',
+              'online trace checker over step/act log + automaton; weakref '
+              'liveness probes'),
+    'C10': _e('Fault enumeration over every point where the last strong '
+              'reference to a handler can be dropped (between operations and '
+              'inside callback i of a dispatch) under steered listener '
+              'iteration orders (__hash__), for dispatcher-, component- and '
+              'processor-owned handlers; oracle: no None receiver, exactly-'
+              'once to survivors, weakref dead after gc.',
+              'reference-drop fault injection at every callback position + '
+              'weakref liveness + delivery log'),
+    'C20': _e('Monitors every listener notification and reads all properties '
+              'of all transforms back after every assignment; oracle = '
+              'exactly-once per matching listener, value == read-back, exact '
+              'modulo-360 reduction.',
+              'listener log + read-back oracle after every assignment'),
 }
 
 PENDING = {}
